@@ -303,3 +303,8 @@ func CheckAlloc() {
 		Assert(false, "alloc-bound")
 	}
 }
+
+// PickU64 case-splits v here: under the engine the path forks once per
+// feasible value and the concrete value is returned (so that what follows is
+// computed concretely); natively it is the identity.
+func PickU64(v uint64) uint64 { return v }
